@@ -36,7 +36,7 @@ def replay(cand):
     obs = kernel_check.native_run(cfg, cand.get("n", 0), cand.get("bytes", []), x=cand.get("x", 0), fn_kind=fn_kind,
                                   writable=writable, is_null=cand.get("null", False))
     if "crash" in obs:
-        return True, "sanitizer/assert report: %s" % obs["crash"][-400:], obs
+        return True, "sanitizer/assert report: %s" % obs["crash"][:600], obs
     return False, "native run finished cleanly", obs
 
 
